@@ -20,6 +20,8 @@ ASSUMPTIONS = [
     "3 x (quoteHash, amountPaid, isValid); 'confirmed' means the call succeeds and all three results are valid",
     "ed25519 signatures are modelled symbolically (who signed, over which fields); EUF-CMA is assumed",
     "XorName::from_content (SHA3-256) is modelled as an injective constructor: collision freedom is a reading",
+    "a value of one record type does not msgpack-decode as another type -- validated on every generated combination; "
+    "the one known coincidence (an empty Vec<Transaction> is byte-identical to an empty chunk) is excluded from generation",
     "wall-clock time: quote ages are generated outside a 2 s guard band around 'now' and around the 3600 s expiry",
     "the harness plays the swarm driver with its own key/value store (value readable after PutLocalRecord, key "
     "listed after the write acknowledgement); the real NodeRecordStore is exercised by C01/C04",
@@ -184,6 +186,11 @@ def rand_case(rng):
         d = pv.delivery(rng.choice(["client"] * 5 + ["repl"]), body, paid=paid, key=key, proof=proof, chain=chain, hdr=hdr)
         if not paid:
             d["proof"] = proof
+        if body["t"] == "txs" and not body["list"] and d["hdr"] in (0, 1):
+            # an empty transaction list is the same msgpack bytes as an empty chunk (0x90 decodes as an
+            # empty byte sequence): the one place where "a value of one type does not decode as another"
+            # fails; excluded from generation (see ASSUMPTIONS)
+            body["list"].append(pv.tx(1, 1))
         ds.append(d)
     closest = rng.choice([[0, 1, 2, 3], [0, 1, 2, 3], [0, 1, 2], [1, 2, 3], [0], list(range(8))])
     return pv.case("random", ds, store=rand_store(rng), closest=closest)
